@@ -303,3 +303,106 @@ def check_forget(ctx, F, rule="E-LIN.forget"):
 
 def _reach_avoiding(B, start, goal, avoid):
     return goal in B.reachable_from(start, avoid=tuple(a for a in avoid if a != goal))
+
+
+# ---- E-LIN.mint: where owned edges come into existence inside the managers -------------------------------------------
+MINT_COUNTED = {
+    # (type marker, function) -> every path to the creation of the edge value passes a reference-count increment (or
+    # the initialisation of a fresh count that already includes the new edge)
+    ("SlotSlice<", "clone_edge_unchecked"): "retain before the copy",
+    ("oxidd_manager_index::manager::Store<", "clone_edge"): "retain (inner node or terminal) before the copy",
+    ("DynamicTerminalManager<", "get_edge"): "found terminal: retain; new terminal: count initialised to 2 (table + the edge)",
+    ("DynamicTerminalIterator<", "next"): "retain before yielding the owned edge",
+    ("oxidd_manager_pointer::manager::Manager<", "clone_edge"): "retain before the copy",
+    ("oxidd_manager_pointer::manager::Edge<", "clone_inner_unchecked"): "retain before the copy",
+}
+MINT_REVIEWED = {
+    # (type marker, function) -> why an edge value is built here without touching a count
+    ("oxidd_manager_index::manager::Function<", "from_raw"): "takes over the reference handed out by into_raw",
+    ("oxidd_manager_index::manager::Edge<", "from_terminal_id"): "the raw constructor (unsafe; callers are the sites above)",
+    ("manager::Function<", "from_edge"): "moves the caller's edge into the handle",
+    ("manager::Function<", "into_edge"): "moves the handle's edge out (the handle is forgotten)",
+    ("manager::Edge<", "borrowed"): "Borrowed<> never drops its copy",
+    ("manager::Edge<", "with_tag"): "Borrowed<> never drops its copy",
+    ("oxidd_manager_index::manager::Store<", "add_node"): "a fresh node is created with count 2: the table's edge and the returned one",
+    ("StaticTerminalManager<", "get_edge"): "static terminals are not reference counted",
+    ("StaticTerminalIterator<", "next"): "static terminals are not reference counted",
+    ("oxidd_manager_pointer::manager::", "add_node"): "a fresh node is created with count 2: the table's edge and the returned one",
+    ("oxidd_manager_pointer::manager::Function<", "store"): "reads the store pointer through a never-dropped copy",
+    ("oxidd_manager_pointer::manager::Function<", "clone"): "builds a never-dropped copy, then clones it through Manager::clone_edge",
+    ("oxidd_manager_pointer::manager::Function<", "drop"): "moves the handle's edge out to release it",
+    ("oxidd_manager_pointer::manager::Function<", "with_manager_exclusive"): "never-dropped copy for the closure",
+    ("oxidd_manager_pointer::manager::Function<", "with_manager_shared"): "never-dropped copy for the closure",
+    ("oxidd_manager_pointer::manager::Edge<", "from_ptr"): "the raw constructor (unsafe)",
+}
+
+
+def _mint_key(table, nice):
+    for k in table:
+        if k[0] in nice and nice.endswith("::" + k[1]):
+            return k
+    return None
+
+
+_COUNT = re.compile(r"::retain$|::clone_edge$|::clone_edge_unchecked$|::clone_inner_unchecked$")
+
+
+def check_mint(ctx, F, rule="E-LIN.mint"):
+    """An owned `Edge` of the managers is a counted reference; creating the value out of a raw id / pointer is the one
+    operation the drop-based rule cannot see.  Every place in the two manager crates that builds an `Edge` value (the
+    tuple-struct literal or `Edge::from_terminal_id`) is inventoried: the copying sites must have a reference-count
+    increment (or the initialisation of a fresh count) on every path from the function entry to the creation; the
+    other sites are the reviewed raw constructors / ownership transfers; an unlisted site is reported."""
+    n = 0
+    seen_counted, seen_reviewed = set(), set()
+    for fid, m in sorted(F.mir.items()):
+        if fid.split("::")[0] not in ("oxidd_manager_index", "oxidd_manager_pointer"):
+            continue
+        B = cfg.Body(m)
+        sites = []
+        for i, t in B.calls():
+            if m["blocks"][i]["c"]:
+                continue
+            cn = cfg.callee_name(t) or ""
+            if cn.endswith("::from_terminal_id"):
+                sites.append(i)
+        inits = set()
+        for i in sorted(B.reach):
+            b = m["blocks"][i]
+            if b["c"]:
+                continue
+            for s in b["s"]:
+                rv = s.get("rv") or {}
+                if rv.get("k") == "aggr" and re.search(r"manager::Edge\b", str(rv.get("adt", ""))):
+                    sites.append(i)
+                if rv.get("k") == "aggr" and re.search(r"::ArcItem\b", str(rv.get("adt", ""))):
+                    inits.add(i)
+        if not sites:
+            continue
+        nice = re.sub(r"\{closure#\d+\}", "{closure}", F.nice(fid))
+        counts = {i for i, t in B.calls() if _COUNT.search(cfg.callee_name(t) or "")} | inits
+        free = B.reachable_from(0, avoid=counts) if counts else set(B.reach)
+        kc = _mint_key(MINT_COUNTED, nice)
+        kr = _mint_key(MINT_REVIEWED, nice)
+        n += 1
+        if kc is not None:
+            seen_counted.add(kc)
+            bad = [i for i in sites if i in free and i not in counts]
+            ctx.ob(rule, "%s:%s::%s" % ((rule,) + kc), not bad,
+                   "%s (%s): %s" % (nice, F.where(fid),
+                                    "every creation of an owned edge follows a count increment (%s)" % MINT_COUNTED[kc] if not bad else
+                                    "an owned edge is created on a path without a reference-count increment (expected: %s): the "
+                                    "count ends up one too low and the node or terminal is freed while still referenced"
+                                    % MINT_COUNTED[kc]))
+        elif kr is not None:
+            seen_reviewed.add(kr)
+            ctx.ob(rule, "%s:%s::%s" % ((rule,) + kr), True, "%s: reviewed: %s" % (nice, MINT_REVIEWED[kr]), nontrivial=False)
+        else:
+            ctx.ob(rule, "%s:new:%s" % (rule, nice), False,
+                   "%s (%s): builds an owned edge value out of a raw id/pointer; this site is not in the reviewed inventory of "
+                   "edge-creating functions (counted copies / raw constructors / ownership transfers)" % (nice, F.where(fid)))
+    for k in MINT_COUNTED:
+        ctx.ob(rule + ".table", "%s.table:%s::%s" % ((rule,) + k), k in seen_counted,
+               "counted edge-creating site %s..::%s %s" % (k + ("found" if k in seen_counted else "no longer exists: update the table",)),
+               nontrivial=False)
+    return n
